@@ -778,8 +778,13 @@ def l5(run, mod, fns):
                 asg = {norm(e.targets[0]): paths.text(e.value) for k, e, _ in ib.effects if k == "assign"}
                 evs = [k for k, v in asg.items() if v == f"list(obj_to_events({sv}))"]
                 okx = len(evs) == 1 and f"list(Binary.unmarshal({evs[0]}))" in asg.values()
-                if ib.end == "fall":
-                    tbl = [paths.text(e) for k, e, _ in ib.effects if k == "loop"]
+                tbl = [paths.text(e) for k, e, _ in ib.effects if k == "loop"]
+                shows = bool(tbl) or any(e.startswith("print(") for k, e in ib.effect_texts(("call",)))
+                if ib.end != "fall" and not shows:
+                    pass      # (an example that was shown before is skipped: `continue`)
+                elif not shows:
+                    continue  # (... or skipped by falling through an if / else: nothing is printed on this path, nothing to compare)
+                else:
                     okx = okx and f"Pretty.unmarshal({evs[0]})" in tbl
                 run.ob("L5", okx, "the hex and the table of an example come from the same event list of the shown object",
                        "the re-encoding / printing of an example no longer use one event list built from the shown object", module=mod,
